@@ -1,9 +1,13 @@
 """C02 — delta equals the Das-Pappu blob-averaged charge-asymmetry variance"""
 from ..runner import Case
-from .. import gen
+from .. import gen, core
 
 ID = "C02"
+STATEFUL = True     # some blocks keep a live object across lines
 LEAN_TARGETS = ["Cider.Props.C02", "Cider.Props.C02Tie"]
+# source-text tie (translated on every run by tools/pyexpr2lean.py); skipped when a function no longer fits the translator
+OPTIONAL_TARGETS = ["Cider.Props.C02Src"]
+OPTIONAL_THEOREMS = {"Cider.Props.C02Src": ['Cider.C02Src.deltaTerm_eq', 'Cider.C02Src.delta_eq']}
 P = "Cider.C02."
 THEOREMS = [P + t for t in (
     "blobs_eq_windows", "blob_count", "blobs_last", "sigma_eq_def", "blob_sigma_eq_def", "deltaForm_eq_spec", "deltaForm_short",
@@ -27,6 +31,9 @@ def block(seq):
 
 
 def cases(rng, tier):
+    # the property's own queries AFTER other public calls on the same object (same answers as on a fresh one)
+    for c in gen.after_calls_cases(rng, 16 if tier == "quick" else 120, ['delta', 'sigma']):
+        yield c
     n = 7 if tier == "quick" else 10
     for pat in gen.patterns_upto(n):
         nt = len(pat) >= 5 and pat.count('0') < len(pat)
@@ -41,3 +48,6 @@ def cases(rng, tier):
     # long sequences with > 127 / > 255 charged or neutral residues, net charge beyond +-127, length > 256
     for s in gen.large_regime():
         yield Case(block(s), {"kind": "large-regime"})
+    # objects that were handed back by the library's own moves / shuffles (not built from a string) answer for the sequence they hold
+    for l in core.childq_cases(rng, 40 if tier == "quick" else 400, ["delta", "sigma", "kappa"]):
+        yield Case([l], {"kind": "object-from-move"})
